@@ -164,14 +164,16 @@ Proof.
     destruct (IH b1 (acc ++ [c]) ltac:(lia)) as (cs & b' & -> & Hl). eexists; eexists; split; [reflexivity|lia].
 Qed.
 
-(* ---- parseDescriptor: panics exactly on bodies too short for identifier + event id ---- *)
-Theorem parse_descriptor_fine o data : 8 <= len data -> fine (parse_descriptor o data).
+(* ---- parseDescriptor (with the two length guards of 1ed5cb6): never panics, never diverges ---- *)
+Theorem parse_descriptor_fine o data : fine (parse_descriptor o data).
 Proof.
-  intros H. unfold parse_descriptor, buf_new.
+  unfold parse_descriptor, buf_new. rewrite blen_mk.
+  destruct (N.ltb_spec (len data) 4) as [|H4]; [exact I|].
   destruct (next 4 (mkbuf data None)) as [idb b1] eqn:E1.
   pose proof (next_len 4 (mkbuf data None)) as [A1 A2]. rewrite E1 in A1, A2. cbn [fst snd] in A1, A2. rewrite blen_mk in A1, A2.
   destruct (be32_of_ok idb ltac:(lia)) as [id ->]. cbn [bind].
   destruct (negb (id =? segDescID)); [exact I|].
+  destruct (N.ltb_spec (blen b1) 5) as [|H5]; [exact I|].
   destruct (next 4 b1) as [eb b2] eqn:E2. pose proof (next_len 4 b1) as [B1 B2]. rewrite E2 in B1, B2. cbn [fst snd] in B1, B2.
   destruct (be32_of_ok eb ltac:(lia)) as [eid ->]. cbn [bind].
   destruct (read_byte0 b2) as [c b3]. destruct (negb (N.land c 128 =? 0)); [exact I|].
@@ -199,41 +201,9 @@ Proof.
   destruct (read_byte0 b14) as [ssn b15]. destruct (read_byte0 b15). exact I.
 Qed.
 
-Theorem parse_descriptor_short_panics o data : len data < 4 -> parse_descriptor o data = Panic.
-Proof.
-  intros H. unfold parse_descriptor, buf_new.
-  destruct (next 4 (mkbuf data None)) as [idb b1] eqn:E1.
-  pose proof (next_len 4 (mkbuf data None)) as [A1 _]. rewrite E1 in A1. cbn [fst] in A1. rewrite blen_mk in A1.
-  rewrite be32_of_short by lia. reflexivity.
-Qed.
-(* 4..7 bytes: the identifier is compared first; with "CUEI" the event id read panics, otherwise the id error *)
-Theorem parse_descriptor_mid_nodiv o data : len data < 8 -> nodiv (parse_descriptor o data) /\
-  (parse_descriptor o data = Panic \/ parse_descriptor o data = Err E.SCTE35InvalidDescriptorID).
-Proof.
-  intros H. unfold parse_descriptor, buf_new.
-  destruct (next 4 (mkbuf data None)) as [idb b1] eqn:E1.
-  pose proof (next_len 4 (mkbuf data None)) as [A1 A2]. rewrite E1 in A1, A2. cbn [fst snd] in A1, A2. rewrite blen_mk in A1, A2.
-  destruct (be32_of idb) as [id| | |] eqn:Eid; cbn [bind nodiv]; auto.
-  - destruct (negb (id =? segDescID)); cbn [nodiv]; auto.
-    destruct (next 4 b1) as [eb b2] eqn:E2. pose proof (next_len 4 b1) as [B1 _]. rewrite E2 in B1. cbn [fst] in B1.
-    rewrite be32_of_short by lia. cbn [bind nodiv]. auto.
-  - exfalso. unfold be32_of, idx in Eid.
-    repeat (match type of Eid with context [nth_error ?l ?n] => destruct (nth_error l n) end; cbn [bind] in Eid);
-      discriminate.
-  - exfalso. unfold be32_of, idx in Eid.
-    repeat (match type of Eid with context [nth_error ?l ?n] => destruct (nth_error l n) end; cbn [bind] in Eid);
-      discriminate.
-Qed.
-Corollary parse_descriptor_nodiv o data : nodiv (parse_descriptor o data).
-Proof.
-  destruct (N.ltb_spec (len data) 8).
-  - apply parse_descriptor_mid_nodiv. assumption.
-  - apply fine_nodiv, parse_descriptor_fine. assumption.
-Qed.
-
-(* ---- descriptor loop: terminates within its fuel for every input ---- *)
-Lemma parse_desc_loop_nodiv : forall fuel owner dll br b other descs,
-  (N.to_nat (dll - br) < fuel)%nat -> nodiv (parse_desc_loop fuel owner dll br b other descs).
+(* ---- descriptor loop: terminates within its fuel for every input, never panics ---- *)
+Lemma parse_desc_loop_fine : forall fuel owner dll br b other descs,
+  (N.to_nat (dll - br) < fuel)%nat -> fine (parse_desc_loop fuel owner dll br b other descs).
 Proof.
   induction fuel as [|fuel IH]; intros owner dll br b other descs Hf; [lia|]. cbn [parse_desc_loop].
   destruct (N.ltb_spec br dll); cbn [negb]; [|exact I].
@@ -241,55 +211,10 @@ Proof.
   destruct (Z.ltb_spec (Z.of_N dll - Z.of_N br - 2) (Z.of_N dl)); [exact I|].
   destruct (negb (tag =? segDescTag)); destruct (next dl b2) as [body b3].
   - apply IH. lia.
-  - apply nodiv_bind; [apply parse_descriptor_nodiv|]. intros d _. apply IH. lia.
+  - apply fine_bind; [apply parse_descriptor_fine|]. intros d _. apply IH. lia.
 Qed.
 
-(* ---- the decoder with the guard of notes/findings/C05-scte.patch: two length checks in parseDescriptor ---- *)
-Definition parse_descriptor_g (owner : option N) (data : bytes) : Res segdesc :=
-  if len data <? 4 then Err E.InvalidSCTE35Length else
-  let? id := be32_of (takeN 4 data) in
-  if negb (id =? segDescID) then Err E.SCTE35InvalidDescriptorID else
-  if len data <? 9 then Err E.InvalidSCTE35Length else parse_descriptor owner data.
-Fixpoint parse_desc_loop_g (fuel : nat) (owner : N) (dll bytes_read : N) (b : buf)
-    (other : bytes) (descs : list segdesc) : Res (bytes * list segdesc * buf) :=
-  match fuel with
-  | O => Diverge
-  | S f =>
-    if negb (bytes_read <? dll) then Ok (other, descs, b) else
-    let (tag, b1) := read_byte0 b in
-    let (dl, b2) := read_byte0 b1 in
-    if (Z.of_N dll - Z.of_N bytes_read - 2 <? Z.of_N dl)%Z then Err E.InvalidSCTE35Length else
-    if negb (tag =? segDescTag) then
-      let (body, b3) := next dl b2 in
-      parse_desc_loop_g f owner dll (bytes_read + 2 + dl) b3 (other ++ [tag; dl] ++ body) descs
-    else
-      let (body, b3) := next dl b2 in
-      let? d := parse_descriptor_g (Some owner) body in
-      parse_desc_loop_g f owner dll (bytes_read + 2 + dl) b3 other (descs ++ [d])
-  end.
-
-Lemma parse_descriptor_g_fine o data : fine (parse_descriptor_g o data).
-Proof.
-  unfold parse_descriptor_g. destruct (N.ltb_spec (len data) 4); [exact I|].
-  destruct (be32_of_ok (takeN 4 data) ltac:(rewrite len_takeN; lia)) as [id ->]. cbn [bind].
-  destruct (negb (id =? segDescID)); [exact I|].
-  destruct (N.ltb_spec (len data) 9); [exact I|]. apply parse_descriptor_fine. lia.
-Qed.
-(* the guard changes nothing where the unguarded function does not panic on the identifier / event id *)
-
-Lemma parse_desc_loop_g_fine : forall fuel owner dll br b other descs,
-  (N.to_nat (dll - br) < fuel)%nat -> fine (parse_desc_loop_g fuel owner dll br b other descs).
-Proof.
-  induction fuel as [|fuel IH]; intros owner dll br b other descs Hf; [lia|]. cbn [parse_desc_loop_g].
-  destruct (N.ltb_spec br dll); cbn [negb]; [|exact I].
-  destruct (read_byte0 b) as [tag b1]. destruct (read_byte0 b1) as [dl b2].
-  destruct (Z.ltb_spec (Z.of_N dll - Z.of_N br - 2) (Z.of_N dl)); [exact I|].
-  destruct (negb (tag =? segDescTag)); destruct (next dl b2) as [body b3].
-  - apply IH. lia.
-  - apply fine_bind; [apply parse_descriptor_g_fine|]. intros d _. apply IH. lia.
-Qed.
-
-(* ---- the whole decoder, parametric in the descriptor loop (the real one and the guarded one) ---- *)
+(* ---- the whole decoder, stated parametrically in the descriptor loop ---- *)
 Definition loop_t := nat -> N -> N -> N -> buf -> bytes -> list segdesc -> Res (bytes * list segdesc * buf).
 Definition parse_descriptors_with (loop : loop_t) (sid : N) (data : bytes) (b : buf) : Res (bytes * list segdesc) :=
   if blen b <? 6 then Err E.InvalidSCTE35Length else
@@ -331,7 +256,6 @@ Definition parse_table_with (loop : loop_t) (sid : N) (data : bytes) : Res scte 
   Ok (mkscte sid tid ssi pi slen pv false encalg pts cw tier scl ct cmd descs 0 dat other).
 Lemma parse_table_is sid data : parse_table sid data = parse_table_with parse_desc_loop sid data.
 Proof. reflexivity. Qed.
-Definition new_scte35_guarded (data : bytes) : Res scte := parse_table_with parse_desc_loop_g 1 data.
 
 Lemma rb0_nonempty b : 1 <= blen b -> exists x b', read_byte0 b = (x, b') /\ last b' = Some x /\ blen b' = blen b - 1 /\ rem b = x :: rem b'.
 Proof.
@@ -464,124 +388,28 @@ Proof.
 Qed.
 End Whole.
 
-(* ---- results ---- *)
-(* the decoder (repaired loops) never fails to terminate, on any byte string *)
-Theorem new_scte35_nodiv data : is_bytes data -> nodiv (new_scte35 data).
+(* ---- result: the decoder neither panics nor fails to terminate, on any byte string ---- *)
+Theorem new_scte35_total data : is_bytes data -> fine (new_scte35 data).
 Proof.
   intros H. unfold new_scte35. rewrite parse_table_is.
-  apply (parse_table_with_P (@nodiv)); auto.
-  - intros A a. exact I.
-  - intros A e. exact I.
-  - intros A B r f. apply nodiv_bind.
-  - intros. apply parse_desc_loop_nodiv. assumption.
-Qed.
-(* with the two length guards of notes/findings/C05-scte.patch it neither panics nor diverges *)
-Theorem new_scte35_guarded_total data : is_bytes data -> fine (new_scte35_guarded data).
-Proof.
-  intros H. unfold new_scte35_guarded.
   apply (parse_table_with_P (@fine)); auto.
   - intros A a. exact I.
   - intros A e. exact I.
   - intros A B r f. apply fine_bind.
-  - intros. apply parse_desc_loop_g_fine. assumption.
+  - intros. apply parse_desc_loop_fine. assumption.
 Qed.
+Corollary new_scte35_nodiv data : is_bytes data -> nodiv (new_scte35 data).
+Proof. intros H. apply fine_nodiv, new_scte35_total, H. Qed.
 
-(* ---- the guard is exact: wherever the unguarded decoder does not panic, the guarded one returns the same ---- *)
-Lemma next4_takeN data : fst (next 4 (mkbuf data None)) = takeN 4 data.
-Proof. reflexivity. Qed.
-
-Lemma parse_descriptor_len8 o i0 i1 i2 i3 e0 e1 e2 e3 : be32 i0 i1 i2 i3 = segDescID ->
-  parse_descriptor o [i0; i1; i2; i3; e0; e1; e2; e3] = Err E.InvalidSCTE35Length.
-Proof.
-  intros Hid. unfold parse_descriptor, buf_new. rewrite next4. cbv beta iota zeta. rewrite be32_of_4. cbn [bind].
-  rewrite Hid. change (segDescID =? segDescID) with true. cbn [negb]. cbv beta iota zeta.
-  rewrite next4. cbv beta iota zeta. rewrite be32_of_4. cbn [bind]. reflexivity.
-Qed.
-
-Lemma parse_descriptor_g_agrees o data : parse_descriptor o data <> Panic ->
-  parse_descriptor_g o data = parse_descriptor o data.
-Proof.
-  intros Hnp. unfold parse_descriptor_g.
-  destruct (N.ltb_spec (len data) 4) as [H4|H4]; [exfalso; apply Hnp, parse_descriptor_short_panics; exact H4|].
-  destruct (be32_of_ok (takeN 4 data) ltac:(rewrite len_takeN; lia)) as [id Eid]. rewrite Eid. cbn [bind].
-  assert (Hhead : parse_descriptor o data =
-                  (if negb (id =? segDescID) then Err E.SCTE35InvalidDescriptorID else parse_descriptor o data)).
-  { destruct (negb (id =? segDescID)) eqn:En; [|reflexivity].
-    unfold parse_descriptor, buf_new. destruct (next 4 (mkbuf data None)) as [idb b1] eqn:E1.
-    assert (idb = takeN 4 data) by (rewrite <- next4_takeN, E1; reflexivity). subst idb. rewrite Eid. cbn [bind]. rewrite En. reflexivity. }
-  destruct (negb (id =? segDescID)) eqn:En; [symmetry; exact Hhead|].
-  destruct (N.ltb_spec (len data) 9) as [H9|H9]; [|reflexivity].
-  apply negb_false_iff, N.eqb_eq in En. subst id.
-  (* 4 <= len data <= 8 with identifier CUEI: 4..7 panics, 8 is the length error *)
-  destruct data as [|i0 [|i1 [|i2 [|i3 rest]]]]; try (unfold len in H4; cbn in H4; lia).
-  assert (Hid : be32 i0 i1 i2 i3 = segDescID).
-  { unfold be32_of, takeN in Eid. cbn in Eid. inversion Eid. reflexivity. }
-  destruct rest as [|e0 [|e1 [|e2 [|e3 [|x rest]]]]].
-  5: { symmetry. apply parse_descriptor_len8. exact Hid. }
-  5: { unfold len in H9. cbn [length] in H9. lia. }
-  all: exfalso; apply Hnp; unfold parse_descriptor, buf_new; rewrite next4; cbv beta iota zeta; rewrite be32_of_4; cbn [bind];
-    rewrite Hid; change (segDescID =? segDescID) with true; cbn [negb]; cbv beta iota zeta; reflexivity.
-Qed.
-
-Lemma parse_desc_loop_g_agrees : forall fuel owner dll br b other descs,
-  parse_desc_loop fuel owner dll br b other descs <> Panic ->
-  parse_desc_loop_g fuel owner dll br b other descs = parse_desc_loop fuel owner dll br b other descs.
-Proof.
-  induction fuel as [|fuel IH]; intros owner dll br b other descs Hnp; [reflexivity|].
-  cbn [parse_desc_loop parse_desc_loop_g] in *.
-  destruct (negb (br <? dll)); [reflexivity|].
-  destruct (read_byte0 b) as [tag b1]. destruct (read_byte0 b1) as [dl b2].
-  destruct (Z.of_N dll - Z.of_N br - 2 <? Z.of_N dl)%Z; [reflexivity|].
-  destruct (negb (tag =? segDescTag)); destruct (next dl b2) as [body b3].
-  - apply IH. exact Hnp.
-  - destruct (parse_descriptor (Some owner) body) as [d| | |] eqn:Ed; cbn [bind] in *.
-    + rewrite parse_descriptor_g_agrees by congruence. rewrite Ed. cbn [bind]. apply IH. exact Hnp.
-    + rewrite parse_descriptor_g_agrees by congruence. rewrite Ed. reflexivity.
-    + congruence.
-    + rewrite parse_descriptor_g_agrees by congruence. rewrite Ed. reflexivity.
-Qed.
-
-Theorem guard_exact data : new_scte35 data <> Panic -> new_scte35_guarded data = new_scte35 data.
-Proof.
-  unfold new_scte35, new_scte35_guarded. rewrite parse_table_is. unfold parse_table_with.
-  set (k1 := parse_descriptors_with parse_desc_loop 1 data).
-  set (k2 := parse_descriptors_with parse_desc_loop_g 1 data).
-  assert (K : forall b, k1 b <> Panic -> k2 b = k1 b).
-  { intros b. unfold k1, k2, parse_descriptors_with.
-    destruct (blen b <? 6); [reflexivity|]. destruct (next 2 b) as [lb b1].
-    destruct (be16_of lb) as [dll| | |]; cbn [bind]; try reflexivity.
-    destruct (blen b1 <? dll + 4); [reflexivity|].
-    destruct (parse_desc_loop (S (length data)) 1 dll 0 b1 [] []) as [r| | |] eqn:El; cbn [bind]; intros Hnp;
-      try (rewrite parse_desc_loop_g_agrees by congruence; rewrite El; reflexivity); try congruence. }
-  clearbody k1 k2.
-  repeat match goal with
-  | |- context [if ?c then _ else _] => destruct c
-  | |- context [let (_, _) := ?x in _] => destruct x
-  | |- context [bind ?r _] => match r with
-                              | ?k _ => is_var k; fail 1
-                              | _ => destruct r; cbn [bind]
-                              end
-  end; try reflexivity; try congruence.
-  all: intros Hnp;
-    match goal with
-    | K : forall b, ?ka b <> Panic -> ?kb b = ?ka b |- context [bind (?ka ?b) _] =>
-      destruct (ka b) as [[? ?]| | |] eqn:Ek; cbn [bind] in *;
-      try (rewrite (K b) by congruence; rewrite Ek; cbn [bind]; reflexivity); try congruence
-    end.
-Qed.
-
-(* ---- the remaining panics of the unguarded decoder, as concrete inputs (replayed on repo-fixed: notes/findings/C05-scte.md) ---- *)
+(* the inputs that panicked before 1ed5cb6 (tag-2 descriptors shorter than identifier + event id + indicator) *)
 Definition short_desc_0 : bytes := [0;252;48;19;0;0;0;0;0;0;0;255;240;0;0;0;2;2;0;0;0;0;0].
 Definition short_desc_4 : bytes := [0;252;48;23;0;0;0;0;0;0;0;255;240;0;0;0;6;2;4;67;85;69;73;0;0;0;0].
-Example short_desc_0_panics : new_scte35 short_desc_0 = Panic /\ new_scte35_guarded short_desc_0 = Err E.InvalidSCTE35Length.
-Proof. vm_compute. split; reflexivity. Qed.
-Example short_desc_4_panics : new_scte35 short_desc_4 = Panic /\ new_scte35_guarded short_desc_4 = Err E.InvalidSCTE35Length.
+Example short_desc_now_errors :
+  new_scte35 short_desc_0 = Err E.InvalidSCTE35Length /\ new_scte35 short_desc_4 = Err E.InvalidSCTE35Length.
 Proof. vm_compute. split; reflexivity. Qed.
 (* an object returned without error can be re-encoded without panicking: ScteEnc.update_data is a total function
    (bytes * scte, not Res), every copy() of UpdateData fits by construction (comment in Model/ScteEnc.v). *)
 
-Print Assumptions new_scte35_nodiv.
-Print Assumptions new_scte35_guarded_total.
-Print Assumptions guard_exact.
+Print Assumptions new_scte35_total.
 Print Assumptions parse_descriptor_fine.
 Print Assumptions parse_command_fine.
